@@ -635,11 +635,14 @@ def run(prop, tier, seed):
         spec_cfg, key_of, with_g1 = c13_spec_cfg, c13_key, False
     traces, meta = [], {}
     # a few configurations run as REAL process groups (every rank its own process, default rank / world size)
-    n_pg = (10 if quick else 60)
+    # (a few of every sampler kind; larger configurations first so that independently seeded streams really differ)
+    n_pg = (4 if quick else 20)
     pg_ids = set()
-    cand = [i for i, c in enumerate(cfgs) if c["sampler"] != "rand" and 2 <= c["W"] <= 3]
-    r.shuffle(cand)
-    pg_ids = set(cand[:n_pg])
+    for kind in sorted({c["sampler"] for c in cfgs} - {"rand"}):
+        cand = [i for i, c in enumerate(cfgs) if c["sampler"] == kind and 2 <= c["W"] <= 3]
+        r.shuffle(cand)
+        cand.sort(key=lambda i: -(len(cfgs[i].get("cls", [])) or cfgs[i].get("n", 0)))
+        pg_ids |= set(cand[:n_pg])
     for i, c in enumerate(cfgs):
         c["seed"] = r.randint(0, 5000)
         if c["sampler"] in ("cb", "semi") and len(c["cls"]) >= 2 and r.random() < 0.25:
